@@ -1,10 +1,12 @@
 package harness
 
 import (
+	"encoding/json"
 	"fmt"
 	"math/rand"
 	"os"
 	"sort"
+	"strings"
 	"sync"
 	"testing"
 	"time"
@@ -386,10 +388,64 @@ func coreRandom(rng *rand.Rand) coreCfg {
 	return c
 }
 
+// coreFromTLC loads the scenarios TLC generated from spec/mc/MC_CoreScn.tla: steps, with the script of each new
+// connection attached to the step that makes it ("ansok:refuse", "offer:closeAttached").
+func coreFromTLC(path string, rng *rand.Rand, n int) []coreCfg {
+	ms := time.Millisecond
+	mixes := map[string]coreCfg{
+		"as": {Asynch: true, MinT: 10 * ms, MaxT: 40 * ms, HasD: true, HasL: true},
+		"sy": {Asynch: false, MinT: 10 * ms, MaxT: 0, HasD: true, HasL: true},
+	}
+	data, err := os.ReadFile(path)
+	if err != nil {
+		panic(err)
+	}
+	var all []coreCfg
+	for _, ln := range strings.Split(string(data), "\n") {
+		if strings.TrimSpace(ln) == "" {
+			continue
+		}
+		var x struct {
+			Opt   string   `json:"opt"`
+			Steps []string `json:"steps"`
+		}
+		if err := json.Unmarshal([]byte(ln), &x); err != nil {
+			panic(err)
+		}
+		c, ok := mixes[x.Opt]
+		if !ok {
+			panic("unknown option mix " + x.Opt)
+		}
+		for _, st := range x.Steps {
+			if i := strings.Index(st, ":"); i >= 0 {
+				c.Scripts = append(c.Scripts, st[i+1:])
+				st = st[:i]
+			}
+			c.Steps = append(c.Steps, st)
+		}
+		all = append(all, c)
+	}
+	rng.Shuffle(len(all), func(i, j int) { all[i], all[j] = all[j], all[i] })
+	if n < len(all) {
+		all = all[:n]
+	}
+	return all
+}
+
 func TestCore(t *testing.T) {
 	out := newOut(t, "core")
 	defer out.Close()
 	rng := rand.New(rand.NewSource(seed()))
+	if f := os.Getenv("VERIF_SCN_FILE"); f != "" {
+		for i, cfg := range coreFromTLC(f, rng, count(400, 1000000)) {
+			if out.Stop() {
+				break
+			}
+			res := runCore(t, cfg)
+			out.Add(fmt.Sprintf("corescn-%d", i), coreCfgEv(cfg), fmt.Sprint(cfg), res)
+		}
+		return
+	}
 	var cfgs []coreCfg
 	cfgs = append(cfgs, coreScripted()...)
 	for i := 0; i < count(60, 600); i++ {
